@@ -234,6 +234,34 @@ Section Reader.
 
   Definition ti_has_err (t : titer) : bool := match ti_err t with Some _ => true | None => false end.
 
+  (* the shared tails of the indexedIterator methods; [self] is the method to call again *)
+  (* case i.data == nil of Next: move the index forward, open that block, Next again *)
+  Definition ti_advance (self : titer -> bool * titer) (t0 : titer) : bool * titer :=
+    let '(ok, ix) := bi_next (ti_index t0) in
+    let t1 := ti_with t0 ix (ti_data t0) (ti_err t0) in
+    if negb ok then (false, ti_index_err t1) else self (ti_set_data t1).
+
+  (* after setData: position the fresh data iterator with [pos]; when that fails without a
+     halting error, drop the block and continue with [self] *)
+  Definition ti_enter (pos : biter -> bool * biter) (self : titer -> bool * titer) (t2 : titer) : bool * titer :=
+    match ti_data t2 with
+    | None => (true, t2)               (* (approx) nil data iterator: Go panics *)
+    | Some d =>
+        let '(ok2, d') := d_lift pos d in
+        let t3 := ti_with t2 (ti_index t2) (Some d') (ti_err t2) in
+        if ok2 then (true, t3)
+        else match ti_data_err t3 d' with
+             | Some t4 => (false, t4)
+             | None => self (ti_clear_data t3)
+             end
+    end.
+
+  (* case i.data == nil of Prev: move the index back, open that block, go to its last entry *)
+  Definition ti_retreat (self : titer -> bool * titer) (t0 : titer) : bool * titer :=
+    let '(ok, ix) := bi_prev (ti_index t0) in
+    let t1 := ti_with t0 ix (ti_data t0) (ti_err t0) in
+    if negb ok then (false, ti_index_err t1) else ti_enter bi_last self (ti_set_data t1).
+
   (* Next *)
   Fixpoint ti_next_f (fuel : nat) (t : titer) : bool * titer :=
     match fuel with
@@ -241,11 +269,6 @@ Section Reader.
     | S f =>
         if ti_has_err t then (false, t)
         else
-          let advance (t0 : titer) :=       (* case i.data == nil *)
-            let '(ok, ix) := bi_next (ti_index t0) in
-            let t1 := ti_with t0 ix (ti_data t0) (ti_err t0) in
-            if negb ok then (false, ti_index_err t1)
-            else ti_next_f f (ti_set_data t1) in
           match ti_data t with
           | Some d =>
               let '(ok, d') := d_lift bi_next d in
@@ -253,9 +276,9 @@ Section Reader.
               if ok then (true, t1)
               else match ti_data_err t1 d' with
                    | Some t2 => (false, t2)
-                   | None => advance (ti_clear_data t1)
+                   | None => ti_advance (ti_next_f f) (ti_clear_data t1)
                    end
-          | None => advance t
+          | None => ti_advance (ti_next_f f) t
           end
     end.
 
@@ -266,23 +289,6 @@ Section Reader.
     | S f =>
         if ti_has_err t then (false, t)
         else
-          let retreat (t0 : titer) :=       (* case i.data == nil *)
-            let '(ok, ix) := bi_prev (ti_index t0) in
-            let t1 := ti_with t0 ix (ti_data t0) (ti_err t0) in
-            if negb ok then (false, ti_index_err t1)
-            else
-              let t2 := ti_set_data t1 in
-              match ti_data t2 with
-              | None => (true, t2)           (* (approx) data.Last() on a nil iterator: Go panics *)
-              | Some d =>
-                  let '(ok2, d') := d_lift bi_last d in
-                  let t3 := ti_with t2 (ti_index t2) (Some d') (ti_err t2) in
-                  if ok2 then (true, t3)
-                  else match ti_data_err t3 d' with
-                       | Some t4 => (false, t4)
-                       | None => ti_prev_f f (ti_clear_data t3)
-                       end
-              end in
           match ti_data t with
           | Some d =>
               let '(ok, d') := d_lift bi_prev d in
@@ -290,9 +296,9 @@ Section Reader.
               if ok then (true, t1)
               else match ti_data_err t1 d' with
                    | Some t2 => (false, t2)
-                   | None => retreat (ti_clear_data t1)
+                   | None => ti_retreat (ti_prev_f f) (ti_clear_data t1)
                    end
-          | None => retreat t
+          | None => ti_retreat (ti_prev_f f) t
           end
     end.
 
@@ -314,19 +320,7 @@ Section Reader.
       let '(ok, ix) := bi_last (ti_index t) in
       let t1 := ti_with t ix (ti_data t) (ti_err t) in
       if negb ok then (false, ti_clear_data (ti_index_err t1))
-      else
-        let t2 := ti_set_data t1 in
-        match ti_data t2 with
-        | None => (true, t2)               (* (approx) nil data iterator: Go panics *)
-        | Some d =>
-            let '(ok2, d') := d_lift bi_last d in
-            let t3 := ti_with t2 (ti_index t2) (Some d') (ti_err t2) in
-            if ok2 then (true, t3)
-            else match ti_data_err t3 d' with
-                 | Some t4 => (false, t4)
-                 | None => ti_prev (ti_clear_data t3)
-                 end
-        end.
+      else ti_enter bi_last ti_prev (ti_set_data t1).
 
   Definition ti_seek (t : titer) (key : bytes) : bool * titer :=
     if ti_has_err t then (false, t)
@@ -334,19 +328,7 @@ Section Reader.
       let '(ok, ix) := bi_seek c (ti_index t) key in
       let t1 := ti_with t ix (ti_data t) (ti_err t) in
       if negb ok then (false, ti_clear_data (ti_index_err t1))
-      else
-        let t2 := ti_set_data t1 in
-        match ti_data t2 with
-        | None => (true, t2)               (* (approx) nil data iterator: Go panics *)
-        | Some d =>
-            let '(ok2, d') := d_lift (fun it => bi_seek c it key) d in
-            let t3 := ti_with t2 (ti_index t2) (Some d') (ti_err t2) in
-            if ok2 then (true, t3)
-            else match ti_data_err t3 d' with
-                 | Some t4 => (false, t4)
-                 | None => ti_next (ti_clear_data t3)
-                 end
-        end.
+      else ti_enter (fun it => bi_seek c it key) ti_next (ti_set_data t1).
 
   Definition ti_get (t : titer) : option (bytes * bytes) :=
     match ti_data t with Some d => d_get d | None => None end.
